@@ -7,7 +7,7 @@ from checks import modlib as ml
 
 PROP = 'C14'
 KIND = 'C14'
-TARGETS = ['theories/Proofs/SortProofs.v', 'theories/Run/RunC15.v']
+TARGETS = ['theories/Proofs/SortProofs.v', 'theories/Proofs/SortModuleProofs.v', 'theories/Run/RunC15.v']
 RULE = ('modules built through the public API: random interleaving of all 20 named kinds plus IF_DATA, USER_RIGHTS, MOD_COMMON, '
         'MOD_PAR, VARIANT_CODING, arbitrary uids/lines, new (uid 0) elements mixed in; ops: sort, sort after pushes, sort twice; '
         'non-trivial = at least two kinds populated and at least one list out of alphabetical order; distinct = distinct observation')
